@@ -164,6 +164,7 @@ type cell struct {
 	path     *pathDef
 	req      *dns.Msg // the request as parsed from wire
 	boundary string   // name of the boundary group, or ""
+	phase    string   // "" for the grid, phasePooled for the shared-cloner histories
 	wire     []byte
 	form     reqForm
 	sh       shape
@@ -175,7 +176,7 @@ func (c *cell) witness() map[string]any {
 	return map[string]any{
 		"cell": c.idx, "path": c.path.name, "configured_udp_max": c.path.cfg, "request_edns": c.form,
 		"handler_response": c.sh, "qname": c.sh.qname(), "request_hex": fmt.Sprintf("%x", c.wire),
-		"limit": c.path.limit(c.form.Adv), "boundary_group": c.boundary,
+		"limit": c.path.limit(c.form.Adv), "boundary_group": c.boundary, "phase": c.phase,
 	}
 }
 
